@@ -152,6 +152,7 @@ async function run_query(req) {
     let producer = req.producer;
     let rows_before = producer.type != 'endless' ? plain(producer.rows) : null;
     let join_before = req.join_rows ? plain(req.join_rows) : null;
+    let headers_before = JSON.stringify([req.header || null, req.join_header || null]);
     let input_rows_ref = producer.type != 'endless' ? producer.rows.slice() : null;
     let join_rows_ref = req.join_rows ? req.join_rows.slice() : null;
     let it = new SimIterator(producer, req.header || null, 'a', trace, req.max_pulls === undefined ? null : req.max_pulls);
@@ -205,6 +206,9 @@ async function run_query(req) {
         out.input_unchanged = JSON.stringify(rows_before) == JSON.stringify(producer.rows) && producer.rows.length == input_rows_ref.length && producer.rows.every((r, i) => r === input_rows_ref[i]);
         out.input_after = plain(producer.rows);
     }
+    out.headers_unchanged = headers_before == JSON.stringify([req.header || null, req.join_header || null]);
+    if (!out.headers_unchanged)
+        out.headers_after = plain([req.header || null, req.join_header || null]);
     if (join_before !== null) {
         out.join_unchanged = JSON.stringify(join_before) == JSON.stringify(req.join_rows) && req.join_rows.every((r, i) => r === join_rows_ref[i]);
     }
